@@ -34,12 +34,14 @@ var (
 	pool     []*PoolKey
 )
 
-const poolSize = 8
+const poolSize = 10
 
 // Pool layout (see tools/genkeys): 0,1 plain RSA-2048; 2 RSA-3072 with a
 // high-bit serial; 3 RSA-4096 with leading-zero serial; 4 shares issuer AND
 // serial with 0; 5 shares the serial of 1 under another issuer; 6 shares the
-// issuer of 1 with another serial; 7 has a longer certificate.
+// issuer of 1 with another serial; 7 has a longer certificate; 8 and 9 are leaf
+// certificates issued by a separate CA (issuer != subject), same issuer,
+// different serials.
 func Pool() []*PoolKey {
 	poolOnce.Do(func() {
 		dir := filepath.Join(verifRoot(), "fixtures", "keys")
